@@ -1,2 +1,45 @@
+/* C16 REAL ops on the real functions of skeletons/REAL.c.
+ *   d2R <bits64: decimal or 0x-hex>   -> hex content octets ("-" = empty) | fail
+ *   R2d <hex>                         -> ok <16 hex digits> | ok nan | erange | einval | fail | decimal-unmodelled
+ * The double is passed bit-for-bit (memcpy from/to uint64_t). */
 #include "hutil.h"
-int ops_real(int argc, char **argv, FILE *out) { (void)argc; (void)argv; (void)out; return 0; }
+#include <math.h>
+#include <REAL.h>
+
+int ops_real(int argc, char **argv, FILE *out) {
+    const char *op = argv[0];
+    if(argc == 2 && !strcmp(op, "d2R")) {
+        char *endp = 0;
+        errno = 0;
+        uint64_t bits = strtoull(argv[1], &endp, 0);
+        if(errno || !endp || *endp || endp == argv[1] || argv[1][0] == '-') { fputs("bad-op", out); return 1; }
+        double d;
+        memcpy(&d, &bits, sizeof d);
+        REAL_t st; memset(&st, 0, sizeof st);
+        int rc = asn_double2REAL(&st, d);
+        if(rc) fputs("fail", out); else hx_print(out, st.buf, st.size);
+        free(st.buf);
+        return 1;
+    }
+    if(argc == 2 && !strcmp(op, "R2d")) {
+        size_t len; uint8_t *t = hx_parse(argv[1], &len);
+        if(!t) { fputs("bad-op", out); return 1; }
+        /* ISO 6093 decimal forms go through libc strtod: outside the model */
+        if(len > 0 && t[0] >= 0x01 && t[0] <= 0x03) { fputs("decimal-unmodelled", out); free(t); return 1; }
+        /* exact-size buffer: the binary / special paths must not read past size */
+        uint8_t *b = malloc(len ? len : 1);
+        memcpy(b, t, len);
+        free(t);
+        REAL_t st; memset(&st, 0, sizeof st);
+        st.buf = b; st.size = len;
+        double d = 12345.0;
+        errno = 0;
+        int rc = asn_REAL2double(&st, &d);
+        if(rc) fputs(errno == ERANGE ? "erange" : errno == EINVAL ? "einval" : "fail", out);
+        else if(isnan(d)) fputs("ok nan", out);
+        else { uint64_t bits; memcpy(&bits, &d, sizeof bits); fprintf(out, "ok %016" PRIx64, bits); }
+        free(b);
+        return 1;
+    }
+    return 0;
+}
